@@ -146,8 +146,9 @@ def cfgApply (c : Config) (kv : String) : Config :=
   | _ => c
 
 def outcomeText : Outcome → String
-  | .exit code out errs inex unord =>
-    s!"exit {code} {hexOfStr out} {if inex then 1 else 0}{if unord then 1 else 0} " ++ String.intercalate "," (errs.map hexOfStr)
+  | .exit code out errs inex ties =>
+    s!"exit {code} {hexOfStr out} {if inex then 1 else 0}:" ++ String.intercalate "," (ties.map toString) ++ " " ++
+      String.intercalate "," (errs.map hexOfStr)
   | .unsupported w => "unsupported " ++ w
 
 def handleLine (st : DriverState) (line : String) : DriverState × String :=
